@@ -141,7 +141,7 @@ func VH_C16_unicode() {
 	db := Open(root)
 	LowercaseNames = false
 	vAssert("C16.uni.create", db.Create(&vCase{}, DefaultSchema) == nil)
-	ins := []string{"Alice", "bob", "Émile", "Zé-42", "é", "ÉCOLE", "straße", "ǅ", "ÀÉÎõü", "mixedÄscii"}
+	ins := []string{"Alice", "bob", "Web.01", "Émile", "Zé-42", "é", "ÉCOLE", "straße", "ǅ", "ÀÉÎõü", "mixedÄscii"}
 	in := ins[vChoice("in", len(ins))]
 	field := []string{"Up", "Lo", "Uq", "Nest.Low"}[vChoice("field", 4)]
 	o := &vCase{Up: "x", Lo: "x", Uq: "first"}
@@ -197,7 +197,8 @@ func VH_C16_unicode() {
 		if field == "Up" {
 			wq = strings.ToUpper(q)
 		}
-		s := db.Search(&vCase{}, field, "~=", "^"+q+"$")
+		// a literal dot is written as an escape sequence, which case mapping leaves alone
+		s := db.Search(&vCase{}, field, "~=", "^"+strings.ReplaceAll(q, ".", "\\.")+"$")
 		vAssert("C16.uni.regex.ok", s.Err() == nil)
 		if s.Err() == nil {
 			vAssert("C16.uni.regex.case_insensitive", (s.Len() == 1) == (wq == want))
